@@ -111,7 +111,7 @@ def rule_pub(ctx):
                 bad = True
         if not bad:
             ctx.holds("C01.PUB", fi.short, f"every path storing {fields} publishes afterwards", fi=fi)
-    ctx.floor("C01.PUB", "functions storing authoritative fields", n, 9)
+    ctx.floor("C01.PUB", "functions storing authoritative fields", n, 5)
     # apply_rule's only callers: Switch.check_value <- value setter (publishes)
     callers = []
     for fi in p.functions:
@@ -358,7 +358,7 @@ def rule_enum(ctx):
 
 
 # necessary conditions of convergence that other properties' rules decide (router policy independence, definitions, publication, client mirror, framing)
-IMPORTS = [('C05', 'C05.KEY'), ('C05', 'C05.PRED'), ('C07', 'C07.BRANCH'), ('C07', 'C07.DISABLED'), ('C07', 'C07.META'), ('C14', 'C14.SETTER'), ('C15', 'C15.MIRROR'), ('C02', 'C02.LOOP'), ('C02', 'C02.CONSUME'), ('C02', 'C02.DECODE'), ('C09', 'C09.STEP')]
+IMPORTS = [('C05', 'C05.KEY'), ('C05', 'C05.PRED'), ('C07', 'C07.BRANCH'), ('C07', 'C07.DISABLED'), ('C07', 'C07.META'), ('C14', 'C14.SETTER'), ('C15', 'C15.MIRROR'), ('C02', 'C02.LOOP'), ('C02', 'C02.CONSUME'), ('C02', 'C02.DECODE'), ('C09', 'C09.STEP'), ('C10', 'C10.SIGN'), ('C10', 'C10.SIGNR'), ('C10', 'C10.RENDER')]
 
 RULES = [
     ("C01.PUB", rule_pub, "publish after every authoritative store (exemption table with reasons)"),
